@@ -7,19 +7,21 @@ COQ_PROP = "Properties/C14.v"; COQ_DIRS = ["Common", "Proc"]
 COQ_MODULE = "Proc.Model"; RUN_FN = "run"
 THEOREMS = ["C14_bracket_shape", "C14_start_once_in_order", "C14_incoming_until_consumed",
             "C14_handler_iff_not_consumed", "C14_end_once_reverse_after_handler",
-            "C14_brackets_do_not_interleave", "C14_emitted_in_program_order",
+            "C14_caught_panic_bracket_closed", "C14_brackets_do_not_interleave", "C14_emitted_in_program_order",
             "C14_sends_keep_order", "C14_loop_states_reachable", "C14_run_terminates"]
 QUICK_N = 2500; THOROUGH_N = 150000
 RULE = ("scripts = (send budget, global default stack, two modules each with Module::stack mode keep/append/replace/prepend, own elements, "
         "handler script with 0..3 start-up stages and optionally a sleeping task or a shutdown/restart trigger, message injections onto a "
         "gate or directly) drawn from a structured generator: stacks of 0..6 elements mixing pass/modify/consume, sends from every hook "
         "(schedule_in to self, send_in to the peer, delays chosen to create equal arrival times), injections with tied times, timer "
-        "deadlines tied with messages; 12% of the scripts are bursts: one event (start-up stage, first message or wake-up) sends 24..190 "
+        "deadlines tied with messages; 15% of the scripts make a handler callback (handle_message / at_sim_start / at_sim_end) panic under a "
+        "catching stereotype; 12% of the scripts are bursts: one event (start-up stage, first message or wake-up) sends 24..190 "
         "messages from one to three hooks with delays from {0,1,2,3}*unit in non-monotone order with many ties; non-trivial = distinct script whose run contains a message bracket and hits >= 3 targeted mechanisms")
 TRUSTED = ["user code (elements, handler, task) is a script language: pass / modify(+k) / consume, sends from every hook under a shared budget, "
-           "one sleeping task per module or one shutdown trigger per module (never both: timer slots across a runtime shutdown are C05/C09)",
+           "one sleeping task per module, or one shutdown trigger, or one callback (handle_message / at_sim_start / at_sim_end) that panics under a "
+           "catching stereotype (never two of them: timer slots across a runtime shutdown and task polls after a panic are C05/C09/C13)",
            "the event set is the two-list specification that C01 proves the calendar queue refines (current-instant FIFO first, then time order, FIFO among ties)",
-           "panicking hooks/handlers are outside C14 (events.rs returns before incoming_downstream when the handler panics and the stereotype does not catch: C13)",
+           "UNCAUGHT panics and panicking elements are outside C14 (events.rs returns before incoming_downstream when the handler panics and the stereotype does not catch: C13)",
            "tokio is modelled as: a task woken by activate() runs once inside the next Harness::exec of its module, after the callback"]
 ASSUMPTIONS = ["numbers in scripts stay far below 2^62 (payload additions do not wrap, times fit SimTime)"]
 CLAIM = dict(
@@ -28,15 +30,18 @@ CLAIM = dict(
          "(message, timer wake-up, start-up stage, restart, tear-down) and every script of sends/injections, the call log of each delivered event is "
          "start_0 [in_0] .. start_{n-1} [in_{n-1}] [handler] [task] end_{n-1} .. end_0: every element sees event_start exactly once in stack order; "
          "incoming is offered to element i iff no earlier element consumed, with the payload as modified by elements 0..i-1; the handler runs iff "
-         "no element consumes; event_end runs exactly once per element in reverse order after everything else; the whole log is a concatenation "
+         "no element consumes; event_end runs exactly once per element in reverse order after everything else, also when the callback panics and "
+         "the stereotype catches it (the module is deactivated, the bracket is still closed); the whole log is a concatenation "
          "of such single-module brackets (no interleaving); the events a bracket adds to the event set are exactly its send calls in log order, "
          "and two sends of one event with arrival times t1 <= t2 are dispatched in that order; every run terminates within the stated fuel. "
          "The model is tied to des by differential runs of scripted ProcessingElements/Modules on the real runtime (global stack via set_stack, "
-         "per-module via Module::stack, add_message_onto/handle_message_on, start-up stages, tokio sleep wake-ups, shutdown/restart, sim end) "
+         "per-module via Module::stack, add_message_onto/handle_message_on, start-up stages, tokio sleep wake-ups, shutdown/restart, caught "
+         "handler panics, bursts of up to 190 sends per event, sim end) "
          "against the extracted model on every invocation, plus a monitor that parses the implementation's log with the bracket grammar.",
     note="Trusted: Coq kernel; extraction cross-checked in-Coq on a sample each run; harness/generator quality bounds the tie to the code. "
-         "User code is a script language (pass/modify/consume, sends under a budget, one task or one shutdown trigger per module). Panicking "
-         "elements/handlers are out of scope (the code skips incoming_downstream after an uncaught handler panic; see C13). Module::reset runs "
+         "User code is a script language (pass/modify/consume, sends under a budget, one task or one shutdown trigger or one caught-panic site per "
+         "module). Uncaught panics and panicking elements are out of scope (the code skips incoming_downstream after an uncaught handler panic; see C13). "
+         "After a caught panic the module is inactive: its undelayed sends to the peer from event_end are dropped at its own gate. Module::reset runs "
          "outside any bracket. A message for a shut-down module produces no bracket at all (C09).",
     technique="Coq proof by induction over the stack (closed-form bracket shape), invariants over the event loop, termination measure; differential correspondence check",
     design="6/C14")
@@ -78,7 +83,7 @@ def pay_through(stack, x):
     return x
 
 
-def gen_script(rng):
+def gen_script(rng, panic=False):
     ids = IdGen(1000)
     pe = rng.choice([0.0, 0.1, 0.25, 0.4])
     total = rng.choice([0, 1, 2, 2, 3, 3, 4, 5, 6])
@@ -107,6 +112,24 @@ def gen_script(rng):
             h["xb"] = rng.randint(0, 1) if rng.random() < 0.8 else 1
             h["xc"] = rng.choice([0, 1, 5, 1000, 2500000])
         mods.append({"mode": mode, "own": own, "h": h})
+    if panic:
+        # one module (sometimes both) panics in one callback; its stereotype catches
+        for m in ([rng.randint(0, 1)] if rng.random() < 0.8 else [0, 1]):
+            mod = mods[m]; h = mod["h"]
+            stack = {0: glob, 1: glob + mod["own"], 2: mod["own"], 3: mod["own"] + glob}[mod["mode"]]
+            site = rng.choice([0, 0, 0, 1, 2])
+            h["xkind"] = 3; h["xb"] = site + 3 * rng.randint(0, 2); h["xc"] = 0
+            if site == 0:
+                if not any(q[1] == m for q in inj):
+                    inj.append((rng.randint(0, 1), m, rng.choice(TIMES), 1 + len(inj)))
+                    inj.append((rng.randint(0, 1), m, rng.choice(TIMES), 1 + len(inj)))
+                cands = [c for c in (pay_through(stack, q[3]) for q in inj if q[1] == m) if c is not None]
+                h["xa"] = rng.choice(cands) if cands and rng.random() < 0.9 else rng.randint(1, 9)
+            elif site == 1:
+                h["stages"] = rng.choice([1, 2, 3, 3])
+                h["xa"] = rng.randint(0, h["stages"] - 1)
+            else:
+                h["xa"] = rng.randint(0, 3)
     budget = rng.choice([0, 1, 2, 5, 10, 20, 40])
     return encode({"budget": budget, "global": glob, "mods": mods, "inj": inj})
 
@@ -170,7 +193,8 @@ def gen_burst(rng):
 
 def gen(rng, n):
     for _ in range(n):
-        yield gen_burst(rng) if rng.random() < 0.12 else gen_script(rng)
+        r = rng.random()
+        yield gen_burst(rng) if r < 0.12 else gen_script(rng, panic=True) if r < 0.27 else gen_script(rng)
 
 
 def exhaustive():
@@ -207,12 +231,14 @@ def parse_brackets(d, es):
 
     def sends(m, who, br):
         nonlocal i
-        while i < N and es[i][2] in (H_SCHED, H_SEND, H_SHUT):
+        while i < N and es[i][2] in (H_SCHED, H_SEND, H_SHUT, H_PANIC):
             if es[i][0] != m:
                 raise Bad("entry %d: a call of module %d inside the bracket of module %d (brackets interleave)" % (i, es[i][0], m))
             if es[i][1] != who:
                 raise Bad("entry %d: send attributed to %d while %d is running" % (i, es[i][1], who))
-            if es[i][2] != H_SHUT:
+            if es[i][2] == H_PANIC:
+                br["panic"] = True
+            elif es[i][2] != H_SHUT:
                 br["emits"].append((es[i][2], es[i][3], es[i][4]))
             i += 1
 
@@ -225,7 +251,7 @@ def parse_brackets(d, es):
             continue
         st = stacks[m]
         n = len(st)
-        br = {"m": m, "emits": [], "t": None, "first": None, "handler": None, "task": False, "at": i}
+        br = {"m": m, "emits": [], "t": None, "first": None, "handler": None, "task": False, "at": i, "panic": False}
         alive = None          # None: no message in this event; else current payload or "consumed"
         for pos in range(n):
             if i >= N or es[i][:3] != (m, 2 + pos, H_START):
@@ -372,6 +398,13 @@ def mechanisms(script, out):
             ms.add("sim_end_bracket")
         elif br["handler"] is None and n > 0:
             ms.add("wakeup_bracket")
+        if br["panic"]:
+            # the parse succeeded, so every element got its event_end after the panicking callback
+            ms.add("caught_handler_panic_bracket_closed")
+            ms.add({H_HANDLE: "caught_panic_in_handle_message", H_SIMSTART: "caught_panic_in_at_sim_start",
+                    H_SIMEND: "caught_panic_in_at_sim_end"}.get(br["handler"], "caught_panic_elsewhere"))
+            if br["emits"]:
+                ms.add("sends_before_caught_panic")
         if br["task"]:
             ms.add("task_in_wakeup_bracket" if br["handler"] is None else "task_in_other_bracket")
         if br["emits"]:
